@@ -1,3 +1,40 @@
-From C42 Require Import Model.
-Theorem placeholder : True. Proof. exact I. Qed.
-Print Assumptions placeholder.
+(** C42 property theorems: the IMAP4 client parses what the IMAP4 server serialises.
+    [collapse] = collapseNestedLists, [parse] = parseNestedParens (with collapseStrings / splitOn /
+    splitQuoted), [norm] = the structure with integers replaced by their decimal text.
+
+    FULL STATEMENT (the property):
+        forall x : list item, parse (collapse x) = Ok (map norm x)
+    for every nested structure of byte strings (any bytes), None and integers.  It is proved below for
+    every list, of any length, of None / integers / byte strings that are sent quoted (no CR, no LF, at
+    most 1000 bytes -- any other bytes, including quotes, backslashes, braces, parentheses, NIL-like
+    text); nested lists and literal strings are covered by evaluation only (Example nested_examples and
+    the correspondence run), see design.d/C42.md. *)
+From Coq Require Import List NArith ZArith Bool.
+From C42 Require Import Model Proofs.
+Import ListNotations.
+Local Open Scope N_scope.
+
+Theorem parse_collapse_roundtrip_partial : forall l : list item,
+  Forall flat_atom l -> parse (collapse l) = Ok (map norm l).
+Proof. exact flat_roundtrip. Qed.
+Print Assumptions parse_collapse_roundtrip_partial.
+
+(** The statement finding F16 violates on the pinned code: EVERY byte string (ending in a backslash,
+    containing backslash-quote sequences, anything) survives _quote followed by splitQuoted. *)
+Theorem quoted_string_roundtrip : forall s : list N, split_quoted (quote s) = Ok [IStr s].
+Proof. exact quote_roundtrip. Qed.
+Print Assumptions quoted_string_roundtrip.
+
+(** the serialisation of a flat list is never mis-framed by the scanner: it yields only character
+    elements whose concatenation is the input (no literal, no nesting, no error), so the whole parse is
+    splitQuoted of the text *)
+Theorem flat_serialisation_scans_as_text : forall l : list item,
+  Forall flat_atom l ->
+  exists es, scan_all (collapse l) = Ok es /\ forallb is_eb es = true /\ ebytes es = collapse l.
+Proof. intros l H. exact (scan_all_plain _ (qrun_collapse l H)). Qed.
+Print Assumptions flat_serialisation_scans_as_text.
+
+(** _quote's two replace passes are one escaping pass (backslash and double quote get a backslash) *)
+Theorem quote_is_single_pass_escape : forall s : list N, quote s = [DQ] ++ flat_map escb s ++ [DQ].
+Proof. exact quote_escb. Qed.
+Print Assumptions quote_is_single_pass_escape.
